@@ -102,7 +102,8 @@ def kw_strategy(v, D):
             )
         )
     if v == "wave":
-        return st.fixed_dictionaries(dict(speed_of_sound=st.floats(0.1, 5.0).map(lambda x: float("%.6g" % x))))
+        # documented: c in R - positive, negative and exactly zero (every mode is then a zero-frequency mode)
+        return st.fixed_dictionaries(dict(speed_of_sound=st.one_of(gens.nonzero_coef(0.1, 5.0), gens.nonzero_coef(0.1, 5.0), gens.nonzero_coef(0.1, 5.0), st.just(0.0))))
     coefs = st.lists(st.one_of(st.just(0.0), gens.nonzero_coef(0.01, 2.0)), min_size=1, max_size=7)
     if v == "genlin":
         return st.fixed_dictionaries(dict(linear_coefficients=coefs))
@@ -282,8 +283,8 @@ def check(case):
             hw = np.cos(w * dt) * h + sinc * vv
             vw = -w * np.sin(w * dt) * h + np.cos(w * dt) * vv
             e = 1e-12 * (1 + np.abs(w * dt))
-            tol_h = e * (np.abs(h) + np.abs(vv) * np.where(w == 0, abs(dt), 1 / ws))
-            tol_v = e * (w * np.abs(h) + np.abs(vv))
+            tol_h = e * (np.abs(h) + np.abs(vv) * np.where(w == 0, abs(dt), 1 / np.abs(ws)))
+            tol_v = e * (np.abs(w) * np.abs(h) + np.abs(vv))
             res.claim("every_mode:h", float(np.max((np.abs(got[0] - hw) / tol_h)[mask])), 1.0, key=key + ":every_mode")
             res.claim("every_mode:v", float(np.max((np.abs(got[1] - vw) / np.maximum(tol_v, 1e-300))[mask])), 1.0, key=key + ":every_mode")
 
